@@ -58,8 +58,8 @@ Proof.
   destruct (aget cid (n_circ n)) as [c|] eqn:G; [|left; apply same_hops_refl].
   destruct (c_unv c) as [u|] eqn:U; [|left; apply same_hops_refl].
   destruct (h_dh u) as [x|] eqn:X; [|left; apply same_hops_refl].
-  destruct (dh C x Y) as [s1|] eqn:D1; [|left; apply schedule_rm_same].
-  destruct (dh C x (cpk C (p_key (h_peer u)))) as [s2|] eqn:D2; [|left; apply schedule_rm_same].
+  destruct (dh C x Y) as [s1|] eqn:D1; [|left; apply same_hops_refl].
+  destruct (dh C x (cpk C (p_key (h_peer u)))) as [s2|] eqn:D2; [|left; apply same_hops_refl].
   destruct (tag_eqb C au (mac C s1 Y)) eqn:T; cbn [negb]; [|left; apply same_hops_refl].
   right. exists c, (mkHop (h_peer u) (Some (kdf C s1 s2)) (Some x)).
   split; [reflexivity|]. split.
@@ -215,16 +215,38 @@ Proof.
   apply Z.eqb_eq in P. rewrite P. unfold ours. rewrite G, U, X, D1, D2, T. reflexivity.
 Qed.
 
-(* matching identifier but X25519 rejects the key: removal of the circuit is scheduled, nothing else *)
-Lemma bad_point_removal_l n src m o cid i Y au ce r c u x :
+(* matching identifier but malformed key material (X25519 raises ValueError): ignored, nothing changes *)
+Lemma bad_point_noop_l n src m o cid i Y au ce r c u x :
   answer_of m = Some (cid, i, Y, au, ce) -> not_relay_case n m ->
   aget cid (n_retry n) = Some r -> r_pid r = i ->
   aget cid (n_circ n) = Some c -> c_unv c = Some u -> h_dh u = Some x ->
   dh C x Y = None ->
-  handle n src m o = (schedule_rm n cid, [], None).
+  handle n src m o = (n, [], None).
 Proof.
   intros A NR R P G U X D1. rewrite (answer_dispatch n src m o cid i Y au ce A NR), R.
   apply Z.eqb_eq in P. rewrite P. unfold ours. rewrite G, U, X, D1. reflexivity.
+Qed.
+
+(* every answer is either accepted - it matches the outstanding retry cache and verifies against the unverified
+   hop - or it changes nothing at all: no table entry, no unverified hop, no retry cache, nothing sent (wrong
+   identifier, no cache, failed authentication, malformed key material, no unverified hop) *)
+Lemma unaccepted_answer_changes_nothing_l n src m o cid i Y au ce :
+  answer_of m = Some (cid, i, Y, au, ce) -> not_relay_case n m ->
+  (exists e, handle n src m o = (n, [], e))
+  \/ (exists r h, aget cid (n_retry n) = Some r /\ r_pid r = i /\ accepts n cid Y au h).
+Proof.
+  intros A NR. rewrite (answer_dispatch n src m o cid i Y au ce A NR).
+  destruct (aget cid (n_retry n)) as [r|] eqn:R; [|left; eexists; reflexivity].
+  destruct (r_pid r =? i) eqn:P; [|left; eexists; reflexivity]. apply Z.eqb_eq in P.
+  unfold ours.
+  destruct (aget cid (n_circ n)) as [c|] eqn:G; [|left; eexists; reflexivity].
+  destruct (c_unv c) as [u|] eqn:U; [|left; eexists; reflexivity].
+  destruct (h_dh u) as [x|] eqn:X; [|left; eexists; reflexivity].
+  destruct (dh C x Y) as [s1|] eqn:D1; [|left; eexists; reflexivity].
+  destruct (dh C x (cpk C (p_key (h_peer u)))) as [s2|] eqn:D2; [|left; eexists; reflexivity].
+  destruct (tag_eqb C au (mac C s1 Y)) eqn:T; cbn [negb]; [|left; eexists; reflexivity].
+  right. exists r, (mkHop (h_peer u) (Some (kdf C s1 s2)) (Some x)). split; [reflexivity|]. split; [exact P|].
+  exists c, u, x, s1, s2. auto 10.
 Qed.
 
 (* no unverified hop (the answer was already consumed): nothing happens *)
